@@ -108,6 +108,7 @@ NUM_ATOMS = {
     "w": dict(vars_=["w"], fn=_col("w")),
     "cnt": dict(vars_=["cnt"], fn=_col("cnt")),
     "`col 1`": dict(vars_=["col 1"], fn=_col("col 1"), name="col 1"),
+    "x\u00b2": dict(vars_=["x\u00b2"], fn=_col("x\u00b2")),
     "np.log(w)": dict(vars_=["w"], fn=lambda t, d: np.log(d["w"].to_numpy(dtype=float))),
     "np.exp(x)": dict(vars_=["x"], fn=lambda t, d: np.exp(d["x"].to_numpy(dtype=float))),
     "I(x ** 2)": dict(vars_=["x"], fn=lambda t, d: d["x"].to_numpy(dtype=float) ** 2),
@@ -242,6 +243,9 @@ def case_frame(fr):
     rng.shuffle(xz)
     df["xz"] = xz
     meta["xz"] = {"kind": "num"}
+    # a column name that a Unicode normalisation would rewrite (SUPERSCRIPT TWO -> "x2"); derived, no draws
+    df["x\u00b2"] = df["x"].to_numpy() ** 2 + 1.0
+    meta["x\u00b2"] = {"kind": "num"}
     lv = ["p q", "r:s", "t"][: 2 + int(rng.integers(0, 2))]
     idx = frames._balanced(rng, lv, n)
     df["c:1"] = pd.Series([lv[i] for i in idx], dtype="str")
@@ -345,13 +349,13 @@ def _name(text):
 PROFILES = {
     # what C04 judges: numeric variables / pointwise calls and treatment coded factors
     "plain": dict(
-        num=["x", "z", "w", "cnt", "`col 1`", "np.log(w)", "I(x ** 2)", "{x * 2}", "dbl(x)", "I(x + z)",
+        num=["x", "z", "w", "cnt", "`col 1`", "x\u00b2", "np.log(w)", "I(x ** 2)", "{x * 2}", "dbl(x)", "I(x + z)",
              "shift1(z, by=w)", "np.log(np.exp(x))", "dbl(shift1(`col 1`, by=cnt))"],
         cat=["s", "h", "o", "cu", "co", "C(k)", "`c:1`", "C(s)", "T(h)", "I(s)", "tag(h)"],
         fac=["g", "g2", "s", "co", "C(k)", "cu"],
     ),
     "stateful": dict(
-        num=["x", "z", "w", "np.log(w)", "center(x)", "scale(x)", "standardize(z)", "center(np.log(w))",
+        num=["x", "z", "w", "x\u00b2", "np.log(w)", "center(x)", "scale(x)", "standardize(z)", "center(np.log(w))",
              "I(center(x) ** 2)", "scale(center(z))", "bs(x, df=4)", "bs(z, df=5, degree=2)", "poly(x, 2)",
              "bs(x, knots=kn_x)", "bs(x, knots=kn_x, degree=2, intercept=True)", "binary(k)", "B(cnt)", "minmax(z)", "xz", "center(xz)", "scale(xz)",
              "bs(z, df=4, lower_bound=-10, upper_bound=20)", "poly(x, 4)",
